@@ -539,6 +539,8 @@ class WebSocket:
             raise WebSocketConnectionClosedException(
                 "close frame already sent or connection is closed."
             )
+        if isinstance(reason, str):
+            reason = reason.encode("utf-8")
         self.connected = False
         self.send(struct.pack("!H", status) + reason, ABNF.OPCODE_CLOSE)
 
@@ -563,6 +565,9 @@ class WebSocket:
             return
         if status < 0 or status >= ABNF.LENGTH_16:
             raise ValueError("code is invalid range")
+
+        if isinstance(reason, str):
+            reason = reason.encode("utf-8")
 
         try:
             self.connected = False
